@@ -199,6 +199,17 @@ def _run_batteries(res, cases, repo):
                                      outcome={k: v for k, v in out.items() if k != "tb"} if not ok else None))
 
 
+def _callee_name(k):
+    """name of a callee that a case replaces by a model (the callee's contract as this contract assumes it)"""
+    if isinstance(k, tuple):
+        return "builtin:" + ".".join(str(x) for x in k)
+    q = getattr(k, "__qualname__", None) or getattr(k, "__name__", None) or repr(k)
+    m = getattr(k, "__module__", None)
+    if isinstance(k, property):
+        q = getattr(k.fget, "__qualname__", "property"); m = getattr(k.fget, "__module__", None)
+    return "%s:%s" % (m, q) if m else q
+
+
 def verify(contract, repo, tier="quick"):
     """run in a worker: returns a JSON-able result"""
     t_start = time.time()
@@ -228,6 +239,7 @@ def verify(contract, repo, tier="quick"):
     except Exception as e:
         res["error"] = "contract setup failed: %s\n%s" % (e, traceback.format_exc())
         return res
+    res["callee_models"] = sorted({_callee_name(k) for case in cases for k in (case.models or {})})
     for case in cases:
         E = Engine(repo, models=case.models, inline=case.inline, invariants=case.invariants, name_calls=case.name_calls, alloc=case.alloc, options=case.options)
         st0 = St(pc=tuple(case.pre), zh=case.zh, heap=case.heap)
